@@ -32,10 +32,11 @@ class Untranslatable(Exception):
 
 TOKEN_RE = re.compile(r"""
     (?P<ws>\s+|//[^\n]*|/\*.*?\*/)
+  | (?P<str>"(?:[^"\\]|\\.)*")
   | (?P<float>\d[\d_]*\.\d[\d_]*(?:[eE][+-]?\d+)?(?:_?f32|_?f64)?|\d[\d_]*[eE][+-]?\d+(?:_?f32|_?f64)?|\d[\d_]*(?:_?f32|_?f64)|\d[\d_]*\.(?![\w.]))
   | (?P<int>\d[\d_]*(?:_?(?:usize|u64|i64|u32|i32|u8|isize))?)
   | (?P<ident>[A-Za-z_][A-Za-z_0-9]*!?)
-  | (?P<op>::|->|=>|==|!=|<=|>=|&&|\|\||\.\.=|\.\.|[-+*/%<>=!&|.,;:(){}\[\]#?@])
+  | (?P<op>::|->|=>|==|!=|<=|>=|-=|\+=|&&|\|\||\.\.=|\.\.|[-+*/%<>=!&|.,;:(){}\[\]#?@])
 """, re.X | re.S)
 
 
@@ -105,8 +106,16 @@ class Parser:
                 stmts.append(("assert", cond))
                 continue
             e = self.expr()
+            if self.peek()[1] in ("=", "-=", "+="):
+                op = self.next()[1]
+                rhs = self.expr()
+                self.expect(";")
+                stmts.append(("assign", e, op, rhs))
+                continue
             if self.accept(";"):
                 stmts.append(("expr", e))
+            elif e[0] in ("if", "iflet", "match") and self.peek()[1] != "}":
+                stmts.append(("expr", e))       # block-like expression used as a statement
             else:
                 result = e
                 self.expect("}")
@@ -326,6 +335,16 @@ class Parser:
                 return items[0]
             return ("tuple", items)
         if v == "if":
+            if self.peek()[1] == "let":
+                self.next()
+                pat = self.match_pattern()
+                self.expect("=")
+                scrut = self.expr_no_struct()
+                th = self.block()
+                if not self.accept("else"):
+                    raise Untranslatable("if let without else")
+                el = self.primary() if self.peek()[1] == "if" else self.block()
+                return ("iflet", pat, scrut, th, el)
             c = self.expr_no_struct()
             th = self.block()
             if self.accept("else"):
@@ -336,6 +355,18 @@ class Parser:
             else:
                 raise Untranslatable("if without else")
             return ("if", c, th, el)
+        if k == "ident" and v in ("unreachable!", "panic!", "unimplemented!"):
+            self.expect("(")
+            depth = 1
+            while depth:
+                k2, v2 = self.next()
+                if k2 == "eof":
+                    raise Untranslatable("eof in %s" % v)
+                if v2 == "(":
+                    depth += 1
+                elif v2 == ")":
+                    depth -= 1
+            return ("panic", v)
         if v == "match":
             scrut = self.expr_no_struct()
             self.expect("{")
@@ -521,6 +552,7 @@ def parse_params(params_src):
 # typing and printing
 
 NUMT = "T"   # the NumOps carrier
+F32_MAX = (2 ** 24 - 1) * 2 ** 104      # f32::MAX = (2 - 2^-23) * 2^127, exactly
 
 
 def rust_type_to_ty(t):
@@ -612,6 +644,8 @@ class Emitter:
         self.subst_used = set()
         self.opaque_lets = set(opaque_lets)
         self.opaque_seen = set()
+        self.ctx = []                    # enclosing `let ... in` prefixes (for preconditions collected below the top level)
+        self.binder_depth = 0            # > 0 inside a match arm / closure body (their binders cannot be re-created in a _pre)
 
     def ty_str(self, ty):
         if ty == NUMT:
@@ -691,8 +725,10 @@ class Emitter:
                 for cname, cargs in ENUMS[parts[-2]]:
                     if cname == tail and not cargs:
                         return "(%s_%s num)" % (parts[-2], tail), ("enum", parts[-2])
-            if parts[-2:] == ["f32", "MAX"] or parts[-2:] == ["f64", "MAX"]:
-                raise Untranslatable("f32::MAX")
+            if parts[-2:] == ["f32", "MAX"]:
+                return "(of_Q num (%d # 1))" % F32_MAX, NUMT
+            if parts[-2:] == ["f32", "MIN"]:
+                return "(of_Q num ((%d) # 1))" % (-F32_MAX), NUMT
             raise Untranslatable("unknown path %s" % "::".join(parts))
         if k == "cast":
             tgt = rust_type_to_ty(e[1])
@@ -845,10 +881,16 @@ class Emitter:
                 b = fresh(cl[1][0])
                 env2 = dict(env)
                 env2[cl[1][0]] = (b, ty[1])
+                self.binder_depth += 1
+                try:
+                    if name == "map":
+                        tb, rty = self.body_of(cl[2], env2, None)
+                    else:
+                        tb, rty = self.body_of(cl[2], env2, "bool")
+                finally:
+                    self.binder_depth -= 1
                 if name == "map":
-                    tb, rty = self.body_of(cl[2], env2, None)
                     return "(match %s with Some %s => Some %s | None => None end)" % (ta, b, tb), ("option", rty)
-                tb, rty = self.body_of(cl[2], env2, "bool")
                 if rty != "bool":
                     raise Untranslatable("filter predicate of type %r" % (rty,))
                 return "(match %s with Some %s => if %s then Some %s else None | None => None end)" % (ta, b, tb, b), ty
@@ -962,6 +1004,19 @@ class Emitter:
             if both_opt and ty[1] is None:
                 ty = tyb
             return "(if %s then %s else %s)" % (c, ta, tb), ty
+        if k == "iflet":
+            return self.iflet(e, env, want)
+        if k == "panic":
+            # reached only when a collected precondition is false; the value is arbitrary
+            if want == "bool":
+                return "false", "bool"
+            if want == NUMT:
+                return "(zero num)", NUMT
+            if want == "N":
+                return "0%N", "N"
+            if isinstance(want, tuple) and want[0] == "option":
+                return "None", want
+            raise Untranslatable("%s in a position whose type is not known" % e[1])
         if k == "block":
             return self.block(e, env, want)
         if k == "match":
@@ -976,6 +1031,116 @@ class Emitter:
                 return "(nth (N.to_nat %s) %s (zero num))" % (ti, TABLES[tname]), NUMT
             raise Untranslatable("index")
         raise Untranslatable("expr kind %s" % k)
+
+    def add_pre(self, cond_text):
+        if self.binder_depth:
+            raise Untranslatable("precondition under a pattern binder")
+        self.asserts.append("(" + " ".join(self.ctx) + " " + cond_text + ")" if self.ctx else cond_text)
+
+    @staticmethod
+    def is_panic_block(b):
+        return b[0] == "panic" or (b[0] == "block" and not b[1] and b[2] is not None and b[2][0] == "panic") or \
+            (b[0] == "block" and b[2] is None and len(b[1]) == 1 and b[1][0][0] == "expr" and b[1][0][1][0] == "panic")
+
+    def iflet(self, e, env, want):
+        """if let Some(x) = o {A} else {B}   and   if let (Some(x), Some(y)) = (o1, o2) {A} else {B}.
+        An else branch that only panics (unreachable!/panic!) becomes a precondition `o is Some`."""
+        _, pat, scrut, th, el = e
+        if pat[0] == "pctor" and pat[1] == "Some" and len(pat[2]) == 1:
+            pats, scruts = [pat[2][0]], [scrut]
+        elif pat[0] == "ptuple" and scrut[0] == "tuple" and len(pat[1]) == len(scrut[1]) and \
+                all(q[0] == "pctor" and q[1] == "Some" and len(q[2]) == 1 for q in pat[1]):
+            pats, scruts = [q[2][0] for q in pat[1]], list(scrut[1])
+        else:
+            raise Untranslatable("if let pattern")
+        env2 = dict(env)
+        heads = []
+        for q, sc in zip(pats, scruts):
+            ts, ty = self.expr(sc, env)
+            if not (isinstance(ty, tuple) and ty[0] == "option" and ty[1] is not None):
+                raise Untranslatable("if let on %r" % (ty,))
+            if q[0] == "pvar":
+                b = fresh(q[1])
+                env2[q[1]] = (b, ty[1])
+            elif q[0] == "pwild":
+                b = "_"
+            else:
+                raise Untranslatable("nested if let pattern")
+            heads.append((ts, b))
+        panics = self.is_panic_block(el)
+        if panics:
+            for ts, _ in heads:
+                self.add_pre("(match %s with Some _ => true | None => false end)" % ts)
+        self.binder_depth += 1
+        try:
+            tth, ty = self.body_of(th, env2, want)
+        finally:
+            self.binder_depth -= 1
+        tel, tye = self.body_of(el, env, ty)
+        both_opt = isinstance(ty, tuple) and ty[0] == "option" and isinstance(tye, tuple) and tye[0] == "option"
+        if ty != tye and not (both_opt and (ty[1] is None or tye[1] is None)):
+            raise Untranslatable("if let branches differ: %r vs %r" % (ty, tye))
+        if both_opt and ty[1] is None:
+            ty = tye
+        txt = tth
+        for ts, b in reversed(heads):
+            txt = "(match %s with Some %s => %s | None => %s end)" % (ts, b, txt, tel)
+        return txt, ty
+
+    def run_stmt_if(self, e, env, state, events):
+        """`if c { stmts } else { stmts }` used as a STATEMENT that updates the variables in `state`
+        (canonical text -> (current coq text, ty)) and may call the procedures in `events` (canonical text of the call).
+        Returns the Gallina pair (event flags..., new state values...)."""
+        if e[0] != "if":
+            raise Untranslatable("state recipe: not an if statement")
+        c, cty = self.expr(e[1], env, "bool")
+        if cty != "bool":
+            raise Untranslatable("if condition of type %r" % (cty,))
+
+        def run(b):
+            if b[0] == "if":
+                return self.run_stmt_if(b, env, state, events)
+            if b[0] != "block" or b[2] is not None:
+                raise Untranslatable("state recipe: branch is not a statement block")
+            saved = dict(self.subst)
+            fired = {ev: False for ev in events}
+            try:
+                for st in b[1]:
+                    if st[0] == "expr":
+                        cc = canon(st[1])
+                        if cc in fired:
+                            fired[cc] = True
+                            self.subst_used.add(cc)
+                            continue
+                        raise Untranslatable("state recipe: statement %s" % cc)
+                    if st[0] == "assign":
+                        lhs = canon(st[1])
+                        if lhs not in state:
+                            raise Untranslatable("state recipe: assignment to %s" % lhs)
+                        ty = state[lhs]
+                        cur = self.subst[lhs][0]
+                        tr, tyr = self.expr(st[3], env, ty)
+                        if tyr != ty:
+                            raise Untranslatable("state recipe: %r assigned to %r" % (tyr, ty))
+                        if st[2] == "=":
+                            new = tr
+                        elif ty == "N":
+                            new = "(%s %s %s)" % ("N.sub" if st[2] == "-=" else "N.add", cur, tr)
+                        elif ty == NUMT:
+                            new = "(%s num %s %s)" % ("sub" if st[2] == "-=" else "add", cur, tr)
+                        else:
+                            raise Untranslatable("state recipe: %s on %r" % (st[2], ty))
+                        self.subst[lhs] = (new, ty)
+                        self.subst_used.add(lhs)
+                        continue
+                    raise Untranslatable("state recipe: statement kind %s" % st[0])
+                vals = [("true" if fired[ev] else "false") for ev in events] + [self.subst[k][0] for k in state]
+                return "(" + ", ".join(vals) + ")"
+            finally:
+                self.subst = saved
+        ta = run(e[2])
+        tb = run(e[3])
+        return "(if %s then %s else %s)" % (c, ta, tb)
 
     def sq_expr(self, e, env):
         """Coq text of (e)^2 for an expression built from .sqrt(), * and / : the square roots are dropped.
@@ -1025,7 +1190,11 @@ class Emitter:
                 binder = "(" + ", ".join(names) + ")"
             else:
                 raise Untranslatable("Some pattern")
-            tsome, rty = self.body_of(some_arm[1], env2, want)
+            self.binder_depth += 1
+            try:
+                tsome, rty = self.body_of(some_arm[1], env2, want)
+            finally:
+                self.binder_depth -= 1
             tnone, _ = self.body_of(none_arm[1], env, rty)
             return "(match %s with Some %s => %s | None => %s end)" % (ts, binder, tsome, tnone), rty
         if isinstance(ty, tuple) and ty[0] == "enum":
@@ -1054,7 +1223,11 @@ class Emitter:
                             names.append("_")
                         else:
                             raise Untranslatable("nested enum pattern")
-                    t, bty = self.body_of(body, env2, want if rty is None else rty)
+                    self.binder_depth += 1 if names else 0
+                    try:
+                        t, bty = self.body_of(body, env2, want if rty is None else rty)
+                    finally:
+                        self.binder_depth -= 1 if names else 0
                     out.append("| %s_%s _ %s => %s" % (ename, pat[1], " ".join(names), t))
                     covered.add(pat[1])
                 else:
@@ -1070,6 +1243,8 @@ class Emitter:
 
     def block(self, b, env, want=None, sq=False):
         assert b[0] == "block"
+        if b[2] is None and b[1] and b[1][-1][0] == "expr" and b[1][-1][1][0] == "panic":
+            b = ("block", b[1][:-1], b[1][-1][1])        # `{ ...; unreachable!(..); }` has the value of the macro
         env = dict(env)
         lets = []
         for st in b[1]:
@@ -1088,6 +1263,7 @@ class Emitter:
                 if pat[0] == "pvar":
                     name = fresh(pat[1])
                     lets.append("let %s := %s in" % (name, te))
+                    self.ctx.append(lets[-1])
                     env[pat[1]] = (name, ty)
                 elif pat[0] == "ptuple":
                     if not (isinstance(ty, tuple) and ty[0] == "tuple" and len(ty[1]) == len(pat[1])):
@@ -1100,21 +1276,26 @@ class Emitter:
                         names.append(nm)
                         env[sub[1]] = (nm, sty)
                     lets.append("let '(%s) := %s in" % (", ".join(names), te))
+                    self.ctx.append(lets[-1])
                 else:
                     raise Untranslatable("let pattern")
             elif st[0] == "assert":
                 c, cty = self.expr(st[1], env, "bool")
                 if cty != "bool":
                     raise Untranslatable("assert on %r" % (cty,))
-                self.asserts.append("(" + " ".join(lets) + " " + c + ")" if lets else c)
+                self.add_pre(c)
             else:
                 raise Untranslatable("statement expression")
-        if b[2] is None:
-            raise Untranslatable("block without value")
-        if sq:
-            tr, ty = self.sq_expr(b[2], env), NUMT
-        else:
-            tr, ty = self.expr(b[2], env, want)
+        try:
+            if b[2] is None:
+                raise Untranslatable("block without value")
+            if sq:
+                tr, ty = self.sq_expr(b[2], env), NUMT
+            else:
+                tr, ty = self.expr(b[2], env, want)
+        finally:
+            if lets:
+                del self.ctx[len(self.ctx) - len(lets):]
         return "(" + " ".join(lets) + " " + tr + ")" if lets else tr, ty
 
 
@@ -1181,6 +1362,12 @@ def gen_consts(repo, man):
     m = re.search(r"\bconst MAHALANOBIS_NEW_TRACK_THRESHOLD\s*:\s*f32\s*=\s*([^;]+);", srt)
     if m:
         emitq("MAHALANOBIS_NEW_TRACK_THRESHOLD", dec_to_fraction(m.group(1)), "src/trackers/sort.rs", "")
+    trk = read(repo, "src/track.rs")
+    m = re.search(r"\bconst FEATURE_LANES_SIZE\s*:\s*usize\s*=\s*(\d+)\s*;", trk)
+    if not m:
+        raise Untranslatable("FEATURE_LANES_SIZE not found in src/track.rs")
+    out.append("Definition FEATURE_LANES_SIZE : N := %s%%N. (* src/track.rs *)" % m.group(1))
+    man["consts"]["FEATURE_LANES_SIZE"] = m.group(1)
     vv = read(repo, "src/trackers/sort/voting.rs")
     m = re.search(r"const F32_U64_MULT\s*:\s*f32\s*=\s*([^;]+);", vv) or re.search(r"F32_U64_MULT\s*:\s*f32\s*=\s*([^;]+);", read(repo, "src/trackers/sort/voting.rs"))
     if m:
@@ -1210,7 +1397,7 @@ class Item:
     squared       translate the square of the result: the result must be a product/quotient of .sqrt() calls
     """
     def __init__(self, coq_name, file, impl_re, fn, key=None, self_struct=None, snippet=None, params=None, ret=None,
-                 out="Scalar", subst=None, opaque_lets=(), squared=False):
+                 out="Scalar", subst=None, opaque_lets=(), squared=False, self_enum=None, state=None, events=None):
         self.coq_name = coq_name
         self.file = file
         self.impl_re = impl_re
@@ -1224,6 +1411,12 @@ class Item:
         self.subst = subst or []
         self.opaque_lets = tuple(opaque_lets)
         self.squared = squared
+        self.self_enum = self_enum          # enum that `self` denotes (methods of an enum)
+        # state recipe (snippet = one `if .. {stmts} else {stmts}` STATEMENT): state = [(rust place, parameter, ty)] are the
+        # variables the statements assign; events = [rust call text] are procedure calls whose occurrence is reported.
+        # Result: (event flags..., new values of the state variables...)
+        self.state = state or []
+        self.events = events or []
 
 
 def struct_def(repo, file, name, skip=()):
@@ -1294,7 +1487,7 @@ def translate_item(repo, it, items_table, man):
     # substitutions become extra parameters
     subst = {}
     sub_binders = []
-    for (txt, pname, pty) in it.subst:
+    for (txt, pname, pty) in list(it.state) + list(it.subst):
         b = fresh(pname)
         subst[canon_text(txt)] = (b, pty)
         sub_binders.append((b, pty, txt))
@@ -1316,7 +1509,15 @@ def translate_item(repo, it, items_table, man):
             env[pn] = (b, pty)
             binders.append("(%s : %s)" % (b, em.ty_str(pty)))
             ptys.append(pty)
-        if it.squared:
+        if it.state or it.events:
+            st = {canon_text(t): ty for (t, _, ty) in it.state}
+            evs = [canon_text(t) for t in it.events]
+            body = em.run_stmt_if(ast, env, st, evs)
+            rty = ("tuple", ["bool"] * len(evs) + [ty for (_, _, ty) in it.state])
+            missing_ev = [t for t in it.events if canon_text(t) not in em.subst_used]
+            if missing_ev:
+                raise Untranslatable("%s: expected call(s) no longer present: %s" % (it.coq_name, "; ".join(missing_ev)))
+        elif it.squared:
             body, rty = em.sq_expr(ast, env), NUMT
         else:
             body, rty = em.expr(ast, env, it.ret)
@@ -1328,7 +1529,10 @@ def translate_item(repo, it, items_table, man):
         binders = []
         ptys = []
         for (pn, pty) in params:
-            ty = ("struct", it.self_struct) if (pn == "self" and it.self_struct) else (("opaque", "self") if pn == "self" else rust_type_to_ty(pty))
+            if pn == "self":
+                ty = ("struct", it.self_struct) if it.self_struct else (("enum", it.self_enum) if it.self_enum else ("opaque", "self"))
+            else:
+                ty = rust_type_to_ty(pty)
             if ty == ("struct", "Self"):
                 ty = ("struct", it.self_struct)
             if isinstance(ty, tuple) and ty[0] == "opaque":
@@ -1345,7 +1549,7 @@ def translate_item(repo, it, items_table, man):
     for (b, pty, txt) in sub_binders:
         binders.append("(%s : %s)" % (b, em.ty_str(pty)))
         ptys.append(pty)
-    unused = [txt for (txt, _, _) in it.subst if canon_text(txt) not in em.subst_used]
+    unused = [txt for (txt, _, _) in list(it.state) + list(it.subst) if canon_text(txt) not in em.subst_used]
     if unused:
         raise Untranslatable("%s: expected expression(s) no longer present: %s" % (it.coq_name, "; ".join(unused)))
     missing = [n for n in it.opaque_lets if n not in em.opaque_seen]
@@ -1376,7 +1580,9 @@ IMPORTS = "From Coq Require Import ZArith NArith QArith Bool List.\nFrom Similar
 
 # generated files (modules of SimilariGen) in dependency order, with what each one imports
 GEN_FILES = [("Scalar", []), ("ScalarBox", ["Scalar"]), ("ScalarCost", ["Scalar"]), ("ScalarGate", ["Scalar", "ScalarBox", "ScalarCost"]),
-             ("ScalarClip", ["Scalar"])]
+             ("ScalarClip", ["Scalar"]),
+             ("ScalarVisual", ["Scalar", "ScalarBox", "ScalarCost", "ScalarGate"]), ("ScalarNms", ["Scalar", "ScalarBox"]),
+             ("ScalarOwnArea", ["Scalar", "ScalarBox"]), ("ScalarTracker", ["Scalar"])]
 
 
 def gen_scalar(repo, man):
@@ -1417,6 +1623,13 @@ def gen_scalar(repo, man):
         man["enums"] = {k: [c for c, _ in v] for k, v in ENUMS.items()}
     except Untranslatable as e:
         errors["ScalarGate"].append("enum PositionalMetricType: %s" % e)
+    try:
+        ENUMS["VisualSortMetricType"] = enum_def(repo, "src/trackers/visual_sort/metric.rs", "VisualSortMetricType")
+        ctors = " | ".join("VisualSortMetricType_%s%s" % (c, "".join(" (_ : %s)" % em0.ty_str(a) for a in args)) for c, args in ENUMS["VisualSortMetricType"])
+        texts["ScalarVisual"].append("Inductive VisualSortMetricType (num : NumOps) := %s." % ctors)
+        man["enums"] = {k: [c for c, _ in v] for k, v in ENUMS.items()}
+    except Untranslatable as e:
+        errors["ScalarVisual"].append("enum VisualSortMetricType: %s" % e)
 
     items = [
         # C20
